@@ -818,6 +818,9 @@ func init() {
 			p, tag := mk()
 			execs, how := runAll(p.Spec, p.Obs, N, outDir)
 			emitHistory(out, p.Spec, execs, how, tag)
+			for _, e := range p.EpochEnds {
+				out.Emit(fmt.Sprintf("chk epochEnd/epochs.end-from-stored-epoch.%s tag=epochs.end-from-stored-epoch.%s %s", tag, tag, e), "true", "epoch", true)
+			}
 			ntx := 0
 			for _, b := range p.Spec.Blocks {
 				ntx += len(b.Txs)
